@@ -19,6 +19,7 @@ import (
 	"strconv"
 	"strings"
 	"sync"
+	"sync/atomic"
 	"time"
 
 	"github.com/uhn/ggql/pkg/ggql"
@@ -109,9 +110,19 @@ type hsub struct {
 	pat    string
 	failAt int
 	sends  int
+	pure   bool  // race mode: no harness lock, atomic counters only
+	nsend  int64 // atomic
+	nclean int64 // atomic
 }
 
 func (h *hsub) Send(value interface{}) error {
+	if h.pure {
+		n := atomic.AddInt64(&h.nsend, 1)
+		if h.failAt != 0 && int(n) == h.failAt {
+			return fmt.Errorf("subscriber %d fails on delivery %d", h.s, n)
+		}
+		return nil
+	}
 	h.w.mu.Lock()
 	h.sends++
 	n := h.sends
@@ -126,6 +137,10 @@ func (h *hsub) Send(value interface{}) error {
 func (h *hsub) Match(id string) bool { return h.pat == "*" || h.pat == id }
 
 func (h *hsub) Unsubscribe() {
+	if h.pure {
+		atomic.AddInt64(&h.nclean, 1)
+		return
+	}
 	h.w.mu.Lock()
 	h.w.log = append(h.w.log, logEnt{Kind: "cleanup", S: h.s})
 	h.w.mu.Unlock()
@@ -655,7 +670,18 @@ func cmdSched(args []string) {
 	}
 	sort.Strings(evNames)
 	// initial registries: prefixes of the pool order plus one permuted
-	inits := [][]int{{}, {1}, {1, 2}, {1, 2, 3}, {3, 1}, {2, 1, 3, 4}}
+	var inits [][]int
+	for _, in := range [][]int{{}, {1}, {1, 2}, {1, 2, 3}, {3, 1}, {2, 1, 3, 4}} {
+		fits := true
+		for _, s := range in {
+			if s > len(u.Pool) {
+				fits = false
+			}
+		}
+		if fits {
+			inits = append(inits, in)
+		}
+	}
 	rng := rand.New(rand.NewSource(vh.Seed()))
 	// alphabet of operations (subscribe of not-yet-registered subscribers is filtered per init)
 	var alphabet []op
@@ -1171,6 +1197,8 @@ func main() {
 		cmdSched(os.Args[2:])
 	case "stress":
 		cmdStress(os.Args[2:])
+	case "race":
+		cmdRace(os.Args[2:])
 	default:
 		vh.Die("unknown mode %s", os.Args[1])
 	}
@@ -1185,4 +1213,106 @@ func goid() int64 {
 	}
 	id, _ := strconv.ParseInt(f[1], 10, 64)
 	return id
+}
+
+// cmdRace: free-running goroutines with no hooks and no harness locks, meant to be
+// built with -race.  Oracles: the race detector (exit status 66), a deadlock
+// watchdog, clean-up at most once per subscriber, and quiescent consistency
+// (after everything returned the registry holds exactly the subscribed,
+// not-cleaned-up subscribers).
+func cmdRace(args []string) {
+	fs := flag.NewFlagSet("race", flag.ExitOnError)
+	up := fs.String("universe", "", "universe json")
+	iters := fs.Int("iters", 200, "number of runs")
+	ng := fs.Int("goroutines", 8, "goroutines per run")
+	nops := fs.Int("ops", 6, "operations per goroutine")
+	_ = fs.Parse(args)
+	var u Universe
+	vh.ReadJSON(*up, &u)
+	// a bigger pool: replicate the universe's pool
+	base := u.Pool
+	for len(u.Pool) < *ng**nops {
+		u.Pool = append(u.Pool, base...)
+	}
+	rep := vh.NewReport("registry", "race")
+	ggql.VerifHook = nil
+	evNames := []string{}
+	for e := range u.EvVals {
+		evNames = append(evNames, e)
+	}
+	sort.Strings(evNames)
+	rng := rand.New(rand.NewSource(vh.Seed()))
+	for it := 0; it < *iters; it++ {
+		w := newWorld(&u)
+		for _, h := range w.subs {
+			h.pure = true
+		}
+		next := int64(0)
+		subscribed := make([]int32, len(w.subs)+1)
+		var wg sync.WaitGroup
+		start := make(chan struct{})
+		seeds := make([]int64, *ng)
+		for g := range seeds {
+			seeds[g] = rng.Int63()
+		}
+		for g := 0; g < *ng; g++ {
+			wg.Add(1)
+			go func(p int, seed int64) {
+				defer wg.Done()
+				r := rand.New(rand.NewSource(seed))
+				<-start
+				for k := 0; k < *nops; k++ {
+					switch c := r.Intn(10); {
+					case c < 4:
+						s := int(atomic.AddInt64(&next, 1))
+						if s <= len(w.subs) {
+							res := w.subscribe(s)
+							if res["errors"] == nil {
+								atomic.StoreInt32(&subscribed[s], 1)
+							}
+						}
+					case c < 8:
+						_, _ = w.root.AddEvent(u.Ids[r.Intn(len(u.Ids))], w.evObj[evNames[r.Intn(len(evNames))]][p%2])
+					default:
+						ids := append([]string{"*"}, u.Ids...)
+						w.root.Unsubscribe(ids[r.Intn(len(ids))])
+					}
+				}
+			}(g+1, seeds[g])
+		}
+		done := make(chan struct{})
+		close(start)
+		go func() { wg.Wait(); close(done) }()
+		select {
+		case <-done:
+		case <-time.After(30 * time.Second):
+			rep.Mismatch(vh.Mismatch{Case: it, What: "goroutines did not finish within 30s: deadlock"})
+			rep.Emit()
+			os.Exit(0)
+		}
+		inReg := map[int]bool{}
+		for _, s := range w.reg() {
+			if inReg[s] {
+				rep.Mismatch(vh.Mismatch{Case: it, What: fmt.Sprintf("subscriber %d is registered twice", s)})
+			}
+			inReg[s] = true
+		}
+		removedAny := false
+		for _, h := range w.subs {
+			nc := atomic.LoadInt64(&h.nclean)
+			if nc > 1 {
+				rep.Mismatch(vh.Mismatch{Case: it, What: fmt.Sprintf("subscriber %d cleaned up %d times", h.s, nc)})
+			}
+			if nc > 0 {
+				removedAny = true
+			}
+			want := subscribed[h.s] == 1 && nc == 0
+			if want != inReg[h.s] {
+				rep.Mismatch(vh.Mismatch{Case: it, What: fmt.Sprintf("at quiescence subscriber %d: subscribed=%v cleanups=%d registered=%v", h.s, subscribed[h.s] == 1, nc, inReg[h.s])})
+			}
+		}
+		rep.Case(fmt.Sprintf("%d-%d", vh.Seed(), it), removedAny)
+	}
+	rep.Sample(map[string]interface{}{"goroutines": *ng, "ops_each": *nops, "runs": *iters})
+	rep.Emit()
 }
